@@ -1012,9 +1012,13 @@ class Evaluator:
             if len(fc) != 1 or fc[0][0]:
                 raise Unreadable("comprehension filter")
             tr = [cc for truth, cc in fc[0][1] if truth]
-            if len(tr) != 1:
-                raise Unreadable("comprehension filter")
-            filt |= tr[0]
+            if len(tr) == 1:
+                filt |= tr[0]
+            elif len(tr) > 1:
+                # disjunctive filter: one opaque condition made of its alternatives
+                filt |= frozenset([Cond("true", ("or", frozenset(frozenset(t) for t in tr)))])
+            else:
+                raise Unreadable("comprehension filter is never true")
         if isinstance(node.elt, (ast.Compare, ast.BoolOp)) or (isinstance(node.elt, ast.UnaryOp) and isinstance(node.elt.op, ast.Not)):
             fc = self.cond_alts(node.elt, e2, ctx)
             if len(fc) == 1 and not fc[0][0]:
@@ -1696,8 +1700,39 @@ def _val_eq(a, b) -> bool:
     return a == b
 
 
+def compatible(c1: frozenset, c2: frozenset) -> bool:
+    """Can the two guard conjunctions hold together?  (Over-approximation: only syntactic contradictions are found.)"""
+    return not _contradict(c1 | c2)
+
+
+def pairwise_conflict(paths_a, paths_b, same_outcome):
+    """Both path lists partition the input space of a total function.  The functions are equal iff every pair of
+    paths that can hold together has the same outcome.  Returns the first conflicting pair or None."""
+    for (ca, oa) in paths_a:
+        for (cb, ob) in paths_b:
+            if not same_outcome(oa, ob) and compatible(ca, cb):
+                return (ca, oa), (cb, ob)
+    return None
+
+
 def same_function(p1, p2):
-    """Compare two canonical path lists.  Returns (equal, explanation)."""
+    """Compare two canonical path lists.  Returns (equal, explanation).  First the syntactic comparison of the merged
+    path sets; if that fails, the semantic pairwise criterion (guard structure may differ as long as no two
+    simultaneously satisfiable paths disagree)."""
+    ok, why = _same_function_syntactic(p1, p2)
+    if ok:
+        return True, ""
+    conflict = pairwise_conflict([(frozenset(c), v) for c, v in p1], [(frozenset(c), v) for c, v in p2], _val_eq)
+    if conflict is None:
+        return True, ""
+    (ca, oa), (cb, ob) = conflict
+    only_a = sorted(repr(x)[:140] for x in ca - cb)[:3]
+    only_b = sorted(repr(x)[:140] for x in cb - ca)[:3]
+    return False, (f"under guards {sorted(repr(x)[:120] for x in ca & cb)[:3]} (+code {only_a}, +reference {only_b}) the code yields "
+                   f"{repr(oa)[:400]} but the reference {repr(ob)[:400]}")
+
+
+def _same_function_syntactic(p1, p2):
     a, b = canon_paths(p1), canon_paths(p2)
     un_a = []
     rest = list(b)
